@@ -44,12 +44,12 @@ Plan generate(const std::string& prop, int tier, uint64_t batchSeed, uint64_t id
     if (prop == "C20")
     {
         // workloads of the other generators, executed under hostile fresh memory
-        // (C02 / C18: hostile traffic - reassemblies far beyond 64 KiB, thousands of endpoints and messages - whose outputs are
-        // whatever they are, but a function of the input bytes and not of stale memory)
-        static const char* mix[] = {"C01", "C05", "C13", "C15", "C16", "C06", "C04", "C10", "C02", "C18"};
-        Plan p = generate(mix[idx % 10], tier, batchSeed ^ 0xC19C20, idx);
+        // (the hostile families C02 / C18 were tried here as well and taken out again: their heaviest plans - thousands of
+        // endpoints, 70000-frame floods - take minutes under valgrind and would turn the 120 s watchdog into a false alarm)
+        static const char* mix[] = {"C01", "C05", "C13", "C15", "C16", "C06", "C04", "C10"};
+        Plan p = generate(mix[idx % 8], tier, batchSeed ^ 0xC19C20, idx);
         if (p.cfgGet("wraprun", 0))
-            p = generate(mix[idx % 10], tier, batchSeed ^ 0xC19C20, idx + 1000003);  // 65536-frame runs are too slow under valgrind
+            p = generate(mix[idx % 8], tier, batchSeed ^ 0xC19C20, idx + 1000003);  // 65536-frame runs are too slow under valgrind
         if (p.cfgGet("wraprun", 0))
             p = generate("C05", tier, batchSeed ^ 0xC19C20, idx);
         p.prop = prop;
